@@ -191,6 +191,28 @@ func runC19(c *Ctx) {
 	}
 
 	// ---- R4 ------------------------------------------------------------------------------------
+	c.Rule("R7", "no error of a module function or keeper interface is dropped: an operation that ignores a failing step commits a half-done change instead of rolling back; the accepted sites are a fixed table", 1)
+	droppedOK := map[string]string{
+		"keeper.Keeper.ComputePowerToSlash->types.StakingKeeper.SlashUnbondingDelegation":     "what-if slashing on a discarded cache context (C07.R5): only the returned amount is used",
+		"keeper.Keeper.ComputePowerToSlash->types.StakingKeeper.SlashRedelegation":            "what-if slashing on a discarded cache context (C07.R5): only the returned amount is used",
+		"keeper.Keeper.GetSlashMeterAllowance->types.StakingKeeper.GetLastTotalPower":         "a failed read yields power 0 and the allowance falls back to 1 (C09.R2 allowance never 0)",
+		"keeper.Keeper.QueryConsumerChain->keeper.Keeper.GetConsumerInitializationParameters": "query handler: missing parameters are reported as empty",
+		"keeper.Keeper.QueryConsumerChain->keeper.Keeper.GetConsumerPowerShapingParameters":   "query handler: missing parameters are reported as empty",
+	}
+	ds, totalErrCalls := droppedErrors(c.P, "pk", "ck", "provider", "consumer", "ccv")
+	seenDrop := map[string]bool{}
+	for _, d := range ds {
+		k := shortName(ssaFuncName(topFn(d.Parent()))) + "->" + shortName(calleeName(d))
+		why, ok := droppedOK[k]
+		seenDrop[k] = true
+		if ok {
+			c.Check(true, "dropped-error/"+k, d, "accepted: "+why)
+		} else {
+			c.Check(false, "dropped-error/"+k, d, "the error result of "+shortName(calleeName(d))+" is never read")
+		}
+	}
+	c.Check(totalErrCalls >= 1000, "dropped-error/census", nil, fmt.Sprintf("%d calls with an error result analysed, %d accepted drops", totalErrCalls, len(ds)))
+
 	c.Rule("R4", "error/panic census: every error origin that can propagate to provider BeginBlock/EndBlock and every explicit panic reachable from provider/consumer BeginBlock/EndBlock is in the classified table (store-integrity | external | validated-at-write | protocol-invariant); unclassified origins fail", 30)
 	cs := newCensus(c.P)
 	for _, ep := range []string{"provider.AppModule.BeginBlock", "provider.AppModule.EndBlock", "consumer.AppModule.BeginBlock", "consumer.AppModule.EndBlock"} {
